@@ -322,6 +322,99 @@ theorem revocation_needs_material_and_selfsig (P : Params) (cfg : List Key) (d :
     obtain ⟨k, h1, h2, h3, h4, old, h5, h6, h7⟩ := process_revoked P f _ now _ _ m hm'
     exact ⟨old, h5, by rw [sameKey_mat h7]; exact h4, h6, k, h1, h2, h7, h3⟩
 
+/-- **A validly self-signed revocation of a Valid OR Missing anchor is acted
+on** (RFC 5011 state table: Valid + RevBit and Missing + RevBit both go to
+Revoked; a Missing key is still a published trust anchor). The staging step
+accepts it ... -/
+theorem stageOne_honours_valid_and_missing (cur : List TA) (tomb : List Nat) (f : Fetch) (k : Key) (old : TA)
+    (hr : k.revoke = true) (ht : tomb.contains k.mat = false) (hne : sameAsExisting cur k = false)
+    (hl : lookup cur (tagSub128 k.tag) = some old)
+    (hst : old.st = .valid ∨ old.st = .missing)
+    (hs : sameKeyExceptRevoke old.key k = true) (hself : selfSigned f k = true) :
+    stageOne cur tomb f k = true := by
+  unfold stageOne
+  have : isTrusted old.st = true := by rcases hst with h | h <;> simp [h, isTrusted]
+  simp only [hr, ht, hne, hl, this, hs, hself, Bool.not_false, Bool.and_self]
+
+/-- ... and the loop then revokes exactly that entry, tombstones its material
+and counts the revocation. -/
+theorem procFetched_honours_valid_and_missing (staged : List Key) (ro : Bool) (now : Nat) (s : Loop) (k : Key) (old : TA)
+    (hr : k.revoke = true) (ht : s.tomb.contains k.mat = false) (hne : sameAsExisting s.cur k = false)
+    (hl : lookup s.cur (tagSub128 k.tag) = some old)
+    (hst : old.st = .valid ∨ old.st = .missing)
+    (hs : sameKeyExceptRevoke old.key k = true) (hstaged : staged.contains k = true) :
+    k.mat ∈ (procFetched staged ro now s k).revoked ∧ k.mat ∈ (procFetched staged ro now s k).tomb ∧
+    { old with st := .revoked, firstSeen := now } ∈ (procFetched staged ro now s k).cur := by
+  have htr : isTrusted old.st = true := by rcases hst with h | h <;> simp [h, isTrusted]
+  unfold procFetched
+  simp only [ht, hne, hr, hl, htr, hs, hstaged, Bool.false_eq_true, if_false, if_true, Bool.and_self]
+  exact ⟨List.mem_append_right _ (by simp), List.mem_append_right _ (by simp), setRevoked_lookup _ _ now old hl⟩
+
+/-- **self_signed_revocation_is_honoured (whole run).** Completeness of the
+revocation path: in an accepted refresh (fully authenticated or
+revocation-only), a SEP key `k` of the answer that carries the REVOKE bit,
+validly self-signed the answer section, and is the anchor on record at
+`tag - 128` — Valid OR Missing — with only the REVOKE bit toggled, IS accepted
+as that anchor's revocation (`k.mat ∈ revoked`, hence recorded or fail-closed by
+`revocation_recorded_or_closed`, and out of the trust set). Side conditions:
+the material is not tombstoned yet, `k` is not already tracked, and no other
+SEP key of the answer carries the REVOKE bit or one of the two key tags (the
+hypotheses under which the tag-indexed loop cannot be diverted). -/
+theorem self_signed_revocation_is_honoured (P : Params) (cfg : List Key) (d : Disk) (live : List Key)
+    (f : Fetch) (fl : Faults) (now : Nat) (tomb0 : List Nat) (k : Key) (old : TA)
+    (hrt : readTomb d fl = .ok tomb0)
+    (hv : verifyFetched (candidate (prepare cfg (readState d live fl now) tomb0 now).1) f ≠ .none)
+    (hk : k ∈ f.all) (hsep : k.sep = true) (hr : k.revoke = true) (hself : selfSigned f k = true)
+    (hl : lookup (prepare cfg (readState d live fl now) tomb0 now).1 (tagSub128 k.tag) = some old)
+    (hst : old.st = .valid ∨ old.st = .missing)
+    (hs : sameKeyExceptRevoke old.key k = true)
+    (ht : (prepare cfg (readState d live fl now) tomb0 now).2.contains k.mat = false)
+    (hne : sameAsExisting (prepare cfg (readState d live fl now) tomb0 now).1 k = false)
+    (hothers : ∀ q ∈ f.all, q.sep = true → q ≠ k →
+      q.revoke = false ∧ q.tag ≠ tagSub128 k.tag ∧ q.tag ≠ k.tag) :
+    k.mat ∈ (autoTA P cfg d live (some f) fl now).revoked := by
+  rcases autoTA_inv P cfg d live (some f) fl now with ⟨_, _, ha, _⟩ | ⟨t0, f', a, hrt', hf, hva, _, heq⟩
+  · -- an early return means the answer was not accepted
+    exfalso
+    unfold autoTA at ha
+    simp only [hrt] at ha
+    generalize prepare cfg (readState d live fl now) tomb0 now = pr at ha hv
+    obtain ⟨cur, tomb⟩ := pr
+    simp only at ha hv
+    cases hvv : verifyFetched (candidate cur) f with
+    | none => exact hv hvv
+    | full => simp [hvv, finish] at ha
+    | revOnly => simp [hvv, finish] at ha
+  · cases hf
+    rw [hrt] at hrt'
+    cases hrt'
+    rw [heq]
+    show k.mat ∈ (process P f (a == .revOnly) now _ _).revoked
+    generalize hpr : prepare cfg (readState d live fl now) tomb0 now = pr at hl ht hne
+    obtain ⟨cur, tomb⟩ := pr
+    simp only at hl ht hne ⊢
+    have hrev : (process P f (a == .revOnly) now cur tomb).revoked =
+        ((sortByTag (fetchedMap f.all)).foldl
+          (procFetched (stage cur tomb f (sortByTag (fetchedMap f.all))) (a == .revOnly) now)
+          { cur := cur, tomb := tomb }).revoked := by
+      unfold process
+      simp only
+      split <;> rfl
+    rw [hrev]
+    have hkf : k ∈ sortByTag (fetchedMap f.all) :=
+      (mem_sortByTag k _).mpr (mem_fetchedMap_of f.all k hk hsep
+        (fun q hq hqs hqk => (hothers q hq hqs hqk).2.2))
+    have hstage : (stage cur tomb f (sortByTag (fetchedMap f.all))).contains k = true := by
+      have : k ∈ stage cur tomb f (sortByTag (fetchedMap f.all)) := by
+        unfold stage
+        exact List.mem_filter.mpr ⟨hkf, stageOne_honours_valid_and_missing cur tomb f k old hr ht hne hl hst hs hself⟩
+      simpa using this
+    have htr : isTrusted old.st = true := by rcases hst with h | h <;> simp [h, isTrusted]
+    apply foldl_procFetched_honours _ _ now _ { cur := cur, tomb := tomb } k old hkf ?_ hr ht hne hl htr hs hstage
+    intro q hq hqk
+    obtain ⟨h1, h2⟩ := mem_fetchedMap q _ ((mem_sortByTag q _).mp hq)
+    exact hothers q h1 h2 hqk
+
 /-! ## corrupt / unreadable revocation store -/
 
 /-- **corrupt_store_fail_closed.** A tombstone file whose bytes do not decode
@@ -1265,5 +1358,25 @@ example : (autoTA {} [kA] { tomb := .ok [1] } (startupKeys [kA] { tomb := .ok [1
 -- marker-only record and zero-length store at start
 example : startupKeys [kA, kB] { state := .ok [⟨kA, .revoked, 0⟩] } = [kB] := by decide
 example : startupKeys [kA, kB] { tomb := .empty } = [] := by decide
+
+-- Missing, then revoked (seeded C09-12): kA disappears, later kA' is published self-signed and co-signed by kB
+example : (runHist {} [kA, kB] {} [.run (some { keys := [kA, kB], signers := [kB] }) {} none,
+    .run (some { keys := [kB], signers := [kB] }) {} none, .tick (10 * 86400),
+    .run (some revokeA) {} none]) =
+    { disk := { state := .ok [⟨kB, .valid, 0⟩], tomb := .ok [1] }, proc := some [kB], now := 864000 } := by decide
+-- a REVOKE copy of kA that kA never signed, next to a key with the SAME tag as the copy that did sign (seeded
+-- C09-10): no self-signature, kA is neither revoked nor tombstoned (it merely goes Missing)
+example : (autoTA {} [kA, kB] {} [kA, kB]
+    (some { keys := [kA', kB, { kP with tag := 1128 }], signers := [kB, { kP with tag := 1128 }] }) {} 0).revoked = [] := by
+  decide
+example : selfSigned { keys := [kA', kB, { kP with tag := 1128 }], signers := [kB, { kP with tag := 1128 }] } kA' = false := by
+  decide
+
+-- self_signed_revocation_is_honoured on the Missing-then-revoked history: the third run's revocation of kA (Missing)
+example : 1 ∈ (autoTA {} [kA, kB] { state := .ok [⟨kA, .missing, 0⟩, ⟨kB, .valid, 0⟩], tomb := .ok [] } [kA, kB]
+    (some revokeA) {} 864000).revoked :=
+  self_signed_revocation_is_honoured {} [kA, kB] _ [kA, kB] revokeA {} 864000 [] kA' ⟨kA, .missing, 0⟩
+    rfl (by decide) (by decide) rfl rfl (by decide) (by decide) (Or.inr rfl) (by decide) (by decide) (by decide)
+    (by decide)
 
 end SdnsVerif.Props.C09
